@@ -41,6 +41,7 @@ THEOREMS = [
     "AiuVerif.C09.placement",
     "AiuVerif.C09.no_helper_out",
     "AiuVerif.C09.extraction_consumes_helpers",
+    "AiuVerif.C09.complete_group_detected",
     "AiuVerif.C09.every_send_paired_partial",
     "AiuVerif.C09.prefix_final_loses_multicast",
 ]
@@ -62,9 +63,14 @@ ASSUMPTIONS = ["-R / build_coll_event is outside the model (flow pairs are built
                "drain against 1e30: a never-final group with latest_ts >= ~1e30 makes the real loop spin; the "
                "model has an explicit `hang` branch, the generators never reach it"]
 NOT_YET_PROVED = [
-    "every_send_paired for ALL complete groups: false of the current code (open finding flow-prefix-final, "
-    "witness prefix_final_loses_multicast); proved as every_send_paired_partial under the hypotheses that the group is "
-    "never popped before its last event (no stale drop, NoPrefixFinal)",
+    "completeness for ALL complete groups (every single-cast / multicast-segment send with a completed matching receive "
+    "gets exactly one pair): false of the current code - open finding flow-prefix-final, Lean witness "
+    "prefix_final_loses_multicast. Proved as every_send_paired_partial under NoPrefixFinal (no strict prefix of the "
+    "group's events satisfies detect_final) and WithinStaleWindow (trace shorter than 4 x drop_threshold = 20 s, a "
+    "sufficient condition for 'no stale drop'; the weaker 'gaps < 4*max(duration, 5 s)' is covered by the "
+    "correspondence run only)",
+    "end-to-end clause 'with --flow ... exported': the three stages are modelled; the stages registered between them and "
+    "the final sort (mp_calc_bw, calculate_stats, tb refinement, export) are covered by the end-to-end oracle only",
 ]
 
 SEND_TYPES = ("SingleCast", "MultiCast XSEG")
@@ -1020,18 +1026,21 @@ def shrink(ctx: Ctx, case, classifier):
 
 LEVEL_TEXT = ("Lean theorems over an executable model of flow_prepare_event_data, CollectiveGroupingContext (insert, "
               "group_candidates, detect_final, check_drop_group, build_flows, find_recv_partner, "
-              "create_flow_events_from_pair, drain), flow_extraction and flow_data_cleanup, for all input streams: every "
-              "flow id of the output is on exactly one s and one f event with equal names (ids_paired, via a strictly "
-              "increasing id counter); every s/f pair sits at the send's (pid, tid, ts) resp. receive end - 1/1000 on the "
-              "peer named by the send, bp=e, named by the send's sync tag, the receive is a WDone Barrier with the same sync "
-              "tag (placement, f_inside_receive); no ph=F event leaves the stages (no_helper_out, "
-              "extraction_consumes_helpers); detect_final is invariant under permutation of the queue and true on every "
-              "arrival order of a complete chain group of R>=2 ranks (detectFinal_perm, complete_group_detected); a group "
-              "that is only popped with all of its events yields exactly one pair per send with a DONE receive on its "
-              "peer (every_send_paired_partial). The unrestricted completeness clause is false of the current code: "
-              "prefix_final_loses_multicast is a concrete history (decide) on which both multicast-segment arrows are lost.")
+              "create_flow_events_from_pair, drain), flow_extraction and flow_data_cleanup, for all input streams (any "
+              "length, order, ranks, groups): every flow id of the output is on exactly one s and one f event with equal "
+              "names (ids_paired; invariant: strictly increasing id counter); every s event sits at the (pid, tid, ts) of a "
+              "SEND-typed slice and is named by its sync tag, and its f partner (same id, bp=e) sits on the first peer the "
+              "send names at end - 1/1000 of a DONE-typed slice with the same sync tag, inside it when it lasts >= 1 ns "
+              "(placement); no ph=F event leaves the stages (no_helper_out, extraction_consumes_helpers); detect_final "
+              "holds of every permutation of the events of a complete chain group of any R >= 2 ranks "
+              "(complete_group_detected); a group judged final as a whole, with no strict prefix judged final, in a trace "
+              "shorter than the stale window, yields exactly one pair per send with a DONE receive on its peer and is "
+              "emitted once (every_send_paired_partial). The unrestricted completeness clause is false of the current "
+              "code: prefix_final_loses_multicast is a concrete 12-event history (decide) on which both multicast-"
+              "segment arrows are lost.")
 LEVEL_NOTE = ("Trusted: Lean kernel; axioms propext, Classical.choice, Quot.sound; the hand-written model is validated against "
               "the real stages by differential runs only (exhaustive short histories + random chain-allreduce scenarios + "
-              "malformed streams); regex corner cases outside ASCII/no-newline names, -R, and the stages registered between "
-              "flow_extraction and flow_data_cleanup are outside the model; f.ts is compared with 1e-9 relative tolerance.")
+              "malformed streams + a name/args grid + permuted groups); regex corner cases outside ASCII/no-newline names, "
+              "-R, and the stages registered between flow_extraction and flow_data_cleanup are outside the model; f.ts is "
+              "compared with 1e-9 relative tolerance; the completeness clause holds only under NoPrefixFinal (open finding).")
 TECHNIQUE = "Lean 4 proof (induction over the event stream with an id-counter invariant) + model/implementation correspondence run"
